@@ -40,6 +40,13 @@ func iteInt(c bool, a, b int) int {
 	return b
 }
 
+func iteByte(c bool, a, b byte) byte {
+	if c {
+		return a
+	}
+	return b
+}
+
 func inPos(r io.Reader) int                  { return 0 }
 func inEnd(r io.Reader) int                  { return 0 }
 func inByte(r io.Reader, i int) byte         { return 0 }
@@ -52,6 +59,7 @@ func outLen(w io.Writer) int                 { return 0 }
 func outCalls(w io.Writer) int               { return 0 }
 func outByte(w io.Writer, i int) byte        { return 0 }
 func sameBase(a, b []byte) bool              { return false }
+func sameSlice(a, b []byte) bool             { return false }
 func notPartOf(b []byte, x interface{}) bool { return true }
 
 var _ = ws.StateServerSide
@@ -65,7 +73,7 @@ func specIsFirstData(op ws.OpCode) bool { return op < 8 && op != ws.OpContinuati
 //@   props C13
 //@   requires [op] h.OpCode < 16 && h.Rsv < 8
 //@   ensures [err]  (result1 != nil) == (h.Rsv&4 != 0)
-//@   ensures [errv] result1 != nil ==> result1 == ErrUnexpectedCompressionBit
+//@   ensures [errv] result1 != nil ==> result1 == ErrUnexpectedCompressionBit && result0.Rsv == h.Rsv
 //@   ensures [set]  result1 == nil ==> result0.Rsv == h.Rsv|byte(iteInt(s.compressed && specIsFirstData(h.OpCode), 4, 0))
 //@   ensures [rest] result0.Fin == h.Fin && result0.OpCode == h.OpCode && result0.Masked == h.Masked && result0.Mask == h.Mask && result0.Length == h.Length
 //@   ensures [state] s.compressed == old(s.compressed)
@@ -95,13 +103,15 @@ func specIsFirstData(op ws.OpCode) bool { return op < 8 && op != ws.OpContinuati
 //@   requires [op] h.OpCode < 16 && h.Rsv < 8
 //@   ensures [err] (err != nil) == (h.Rsv&4 != 0)
 //@   ensures [set] err == nil ==> result0.Rsv == h.Rsv|byte(iteInt(specIsFirstData(h.OpCode), 4, 0))
+//@   ensures [rest] result0.Fin == h.Fin && result0.OpCode == h.OpCode && result0.Masked == h.Masked && result0.Mask == h.Mask && result0.Length == h.Length && (err != nil ==> result0.Rsv == h.Rsv)
 //@   assigns nothing
 
 //@ func UnsetBit
 //@   props C13
 //@   requires [rsv] h.Rsv < 8 && h.OpCode < 16
 //@   ensures [first] specIsFirstData(h.OpCode) ==> err == nil && wasSet == (h.Rsv&4 != 0) && result0.Rsv == h.Rsv&3
-//@   ensures [other] !specIsFirstData(h.OpCode) ==> !wasSet && (err != nil) == (h.Rsv&4 != 0)
+//@   ensures [other] !specIsFirstData(h.OpCode) ==> !wasSet && (err != nil) == (h.Rsv&4 != 0) && result0.Rsv == h.Rsv
+//@   ensures [rest] result0.Fin == h.Fin && result0.OpCode == h.OpCode && result0.Masked == h.Masked && result0.Mask == h.Mask && result0.Length == h.Length
 //@   assigns nothing
 
 // ---------------------------------------------------------------------------
@@ -299,13 +309,26 @@ func invSuffixed(r *suffixedReader) bool {
 //@   ensures [asnew] r.r == src && r.pos == 0 && r.suffix == old(r.suffix)
 //@   assigns r.r, r.pos
 
+// seqRead: the n bytes delivered are m bytes of the source from sp followed by n-m bytes of
+// the tail from tp -- one call may deliver source bytes, tail bytes or both, in that order.
+func seqRead(p []byte, n, m int, src io.Reader, sp, tp int) bool {
+	return forall(0, n, func(k int) bool { return p[k] == iteByte(k < m, inByte(src, sp+k), specTailByte(tp+k-m)) })
+}
+
 //@ func suffixedReader.Read
 //@   props C12 C15
 //@   requires [inv]  invSuffixed(r) && (r.r != nil ==> streamOK(r.r)) && notPartOf(p, r)
-//@   ensures  [src]  old(r.r) != nil ==> n <= inEnd(old(r.r))-old(inPos(r.r)) && inPos(old(r.r)) == old(inPos(r.r))+n && forall(0, n, func(k int) bool { return p[k] == inByte(old(r.r), old(inPos(r.r))+k) }) && r.pos == old(r.pos)
-//@   ensures  [eof]  old(r.r) != nil ==> (r.r == nil) == (inErr(old(r.r)) == io.EOF && inPos(old(r.r)) == inEnd(old(r.r)) && err == nil && r.r != old(r.r)) && (r.r != nil ==> r.r == old(r.r))
-//@   ensures  [tail] old(r.r) == nil ==> n == iteInt(len(p) < 9-old(r.pos), len(p), 9-old(r.pos)) && r.pos == old(r.pos)+n && forall(0, n, func(k int) bool { return p[k] == specTailByte(old(r.pos)+k) }) && (err != nil) == (old(r.pos) >= 9) && r.r == nil
-//@   ensures  [inv]  invSuffixed(r) && 0 <= n && n <= len(p)
+//@   ensures  [m]    0 <= iteInt(old(r.r) != nil, inPos(old(r.r))-old(inPos(r.r)), 0) && iteInt(old(r.r) != nil, inPos(old(r.r))-old(inPos(r.r)), 0) <= n && n <= len(p)
+//@   ensures  [seq]  seqRead(p, n, iteInt(old(r.r) != nil, inPos(old(r.r))-old(inPos(r.r)), 0), old(r.r), old(inPos(r.r)), old(r.pos))
+//@   ensures  [pos]  r.pos == old(r.pos)+n-iteInt(old(r.r) != nil, inPos(old(r.r))-old(inPos(r.r)), 0)
+//@   ensures  [tailonly] r.pos != old(r.pos) ==> r.r == nil
+//@   ensures  [drain] r.r == nil && old(r.r) != nil ==> inPos(old(r.r)) == inEnd(old(r.r)) && inErr(old(r.r)) == io.EOF
+//@   ensures  [keep] r.r != nil ==> r.r == old(r.r)
+//@   ensures  [eof]  err == io.EOF ==> r.r == nil && r.pos >= 9
+//@   ensures  [srcerr] err != nil && err != io.EOF ==> old(r.r) != nil && err == inErr(old(r.r))
+//@   ensures  [progress] old(r.r) == nil && old(r.pos) < 9 && len(p) > 0 ==> n > 0 && err == nil
+//@   ensures  [end]  old(r.r) == nil && old(r.pos) >= 9 ==> n == 0 && err == io.EOF
+//@   ensures  [inv]  invSuffixed(r)
 //@   assigns r.r, r.pos, bytes(p), stream(r.r)
 
 func isByteReader(r io.Reader) bool {
@@ -321,3 +344,169 @@ func isByteReader(r io.Reader) bool {
 //@   ensures  [end]  old(r.r) == nil || (old(inPos(r.r)) == inEnd(old(r.r)) && inErr(old(r.r)) == io.EOF) ==> (err != nil) == (old(r.pos) >= 9) && (err != nil ==> err == io.EOF && r.pos == old(r.pos))
 //@   ensures  [inv]  invSuffixed(r)
 //@   assigns r.r, r.pos, stream(r.r)
+
+// ---------------------------------------------------------------------------
+// cbuf: the tail-withholding proxy (C12). Abstract view: the bytes that reached dst followed by
+// the withheld bytes buf[:n] are exactly the bytes written so far; up to four are withheld.
+
+func invCbuf(c *cbuf) bool {
+	return 0 <= c.n && c.n <= 4 && c.dst != nil && forall(0, 4, func(k int) bool { return k < c.n || c.buf[k] == 0 })
+}
+
+// cbufByte: byte j of the logical stream of c.
+func cbufByte(c *cbuf, j int) byte {
+	return iteByte(j < outLen(c.dst), outByte(c.dst, j), c.buf[(j-outLen(c.dst))&3])
+}
+
+//@ func cbuf.reset
+//@   props C12 C18
+//@   ensures [asnew] c.n == 0 && c.err == nil && c.dst == dst && c.buf == [4]byte{}
+//@   assigns c.n, c.err, c.buf, c.dst
+
+//@ func cbuf.Write
+//@   props C12 C15
+//@   requires [inv]    invCbuf(c) && notPartOf(p, c) && outLen(c.dst)+len(p) < 1<<60
+//@   ensures  [sticky] old(c.err) != nil ==> result0 == 0 && result1 == old(c.err) && outLen(c.dst) == old(outLen(c.dst)) && c.n == old(c.n) && c.buf == old(c.buf)
+//@   ensures  [ret]    old(c.err) == nil ==> result0 == len(p) && result1 == c.err
+//@   ensures  [hold]   c.err == nil ==> c.n == iteInt(old(c.n)+len(p) < 4, old(c.n)+len(p), 4)
+//@   ensures  [len]    c.err == nil ==> outLen(c.dst)+c.n == old(outLen(c.dst))+old(c.n)+len(p)
+//@   ensures  [keep]   c.err == nil ==> forall(0, old(outLen(c.dst))+old(c.n), func(j int) bool { return cbufByte(c, j) == old(cbufByte(c, j)) })
+//@   ensures  [datahead] c.err == nil ==> forall(0, len(p)-4, func(k int) bool { return cbufByte(c, old(outLen(c.dst))+old(c.n)+k) == p[k] })
+//@   ensures  [datatail] c.err == nil ==> forall(iteInt(len(p) > 4, len(p)-4, 0), len(p), func(k int) bool { return cbufByte(c, old(outLen(c.dst))+old(c.n)+k) == p[k] })
+//@   ensures  [inv]    (c.err == nil ==> invCbuf(c)) && c.dst == old(c.dst)
+//@   assigns c.buf, c.n, c.err, stream(c.dst)
+//@   cases held: c.n == 0 | c.n == 1 | c.n == 2 | c.n == 3 | c.n == 4
+//@   cases plen: len(p) == 0 | len(p) == 1 | len(p) == 2 | len(p) == 3 | len(p) == 4 | len(p) > 4
+
+//@ lemma lemmaTailFull(b0 byte, b1 byte, b2 byte, b3 byte, n int)
+//@   props C12
+//@   requires [pad]  0 <= n && n <= 4 && (n < 1 ==> b0 == 0) && (n < 2 ==> b1 == 0) && (n < 3 ==> b2 == 0) && (n < 4 ==> b3 == 0)
+//@   requires [tail] b0 == 0 && b1 == 0 && b2 == 0xff && b3 == 0xff
+//@   ensures  [full] n == 4
+
+// ---------------------------------------------------------------------------
+// wsflate.Writer / wsflate.Reader around a user-supplied (de)compressor (C12, C18).
+// The compressor is arbitrary code: its Write/Flush/Close may do anything to the heap
+// (assigns everything); its Reset only touches its own state.
+
+//@ iface wsflate.Compressor.Write(p []byte) (n int, err error)
+//@   assigns everything
+
+//@ iface wsflate.Compressor.Flush() (err error)
+//@   assigns everything
+
+//@ iface io.Closer.Close() (err error)
+//@   assigns everything
+
+//@ iface wsflate.WriteResetter.Reset(w io.Writer)
+//@   assigns stream(self)
+
+//@ iface wsflate.ReadResetter.Reset(r io.Reader)
+//@   assigns stream(self)
+
+//@ iface wsflate.Decompressor.Read(p []byte) (n int, err error)
+//@   ensures [n] 0 <= n && n <= len(p)
+//@   assigns everything
+
+// The constructors are user callbacks: they build a (de)compressor around the proxy they are
+// given and do not touch the Writer/Reader that calls them (assumed).
+//@ funcval func(io.Writer) wsflate.Compressor :: (w io.Writer) (c Compressor)
+//@   ensures [c] c != nil
+//@   assigns nothing
+
+//@ funcval func(io.Reader) wsflate.Decompressor :: (r io.Reader) (d Decompressor)
+//@   ensures [d] d != nil
+//@   assigns nothing
+
+//@ func fmt.Errorf
+//@   ensures [err] result != nil
+//@   assigns nothing
+
+//@ func Writer.checkTail
+//@   props C12
+//@   ensures [ok]  w.err == nil ==> old(w.err) == nil && w.cbuf.buf == compressionTail
+//@   ensures [err] old(w.err) != nil ==> w.err == old(w.err)
+//@   assigns w.err
+
+//@ func Writer.Reset
+//@   props C12 C18
+//@   requires [ctor] w.ctor != nil
+//@   ensures [asnew] w.err == nil && w.cbuf.n == 0 && w.cbuf.err == nil && w.cbuf.dst == dest && w.cbuf.buf == [4]byte{}
+
+//@ func Writer.Write
+//@   props C12 C18
+//@   requires [c] w.c != nil
+//@   ensures [sticky] old(w.err) != nil ==> n == 0 && err == old(w.err) && w.err == old(w.err)
+//@   ensures [err]    err == w.err
+
+//@ func Writer.Flush
+//@   props C12
+//@   requires [c] w.c != nil
+//@   ensures [sticky] old(w.err) != nil ==> result == old(w.err) && w.err == old(w.err)
+//@   ensures [tail]   result == nil ==> w.cbuf.buf == compressionTail
+//@   ensures [err]    result == w.err
+
+//@ func Writer.Close
+//@   props C12
+//@   requires [c] w.c != nil
+//@   ensures [sticky] old(w.err) != nil ==> result == old(w.err) && w.err == old(w.err)
+//@   ensures [tail]   result == nil ==> w.cbuf.buf == compressionTail
+//@   ensures [err]    result == w.err
+
+//@ func Writer.Err
+//@   props C12
+//@   ensures [err] result == w.err
+//@   assigns nothing
+
+//@ func suffixedReader.iface
+//@   props C12
+//@   ensures [self] isByteReader(r.r) ==> result == io.Reader(r)
+//@   ensures [cut]  !isByteReader(r.r) ==> !isByteReader(result) && r.rx.Reader == io.Reader(r)
+//@   assigns r.rx.Reader
+
+//@ func Reader.Reset
+//@   props C12 C18
+//@   requires [ctor] r.ctor != nil
+//@   ensures [asnew] r.err == nil && r.sr.r == src && r.sr.pos == 0 && r.sr.suffix == old(r.sr.suffix) && r.src == src
+
+//@ func Reader.Read
+//@   props C12 C18
+//@   requires [d] r.d != nil
+//@   ensures [sticky] old(r.err) != nil ==> n == 0 && err == old(r.err) && r.err == old(r.err)
+
+//@ func Reader.Close
+//@   props C12
+//@   ensures [sticky] old(r.err) != nil ==> result == old(r.err) && r.err == old(r.err)
+//@   ensures [err]    result == r.err
+
+//@ func Reader.Err
+//@   props C12
+//@   ensures [err] result == r.err
+//@   assigns nothing
+
+// ---------------------------------------------------------------------------
+// Frame helpers (C12, C13): same header apart from the compression bit and the length.
+
+//@ iface wsflate.Buffer.Bytes() (b []byte)
+//@   assigns nothing
+
+func sameHdrButRsvLen(a, b ws.Header) bool {
+	return a.Fin == b.Fin && a.OpCode == b.OpCode && a.Masked == b.Masked && a.Mask == b.Mask
+}
+
+//@ func Helper.CompressFrameBuffer
+//@   props C12 C13
+//@   requires [hdr] f.Header.OpCode < 16 && f.Header.Rsv < 8
+//@   call Helper.CompressTo havoc
+//@   ensures [nonfinal] !f.Header.Fin ==> result1 != nil && result0.Header == f.Header && sameSlice(result0.Payload, f.Payload)
+//@   ensures [hdr]  sameHdrButRsvLen(result0.Header, f.Header)
+//@   ensures [ok]   result1 == nil ==> result0.Header.Length == int64(len(result0.Payload)) && result0.Header.Rsv == f.Header.Rsv|byte(iteInt(specIsFirstData(f.Header.OpCode), 4, 0)) && f.Header.Rsv&4 == 0
+
+//@ func Helper.DecompressFrameBuffer
+//@   props C12 C13
+//@   requires [hdr] f.Header.OpCode < 16 && f.Header.Rsv < 8
+//@   call Helper.DecompressTo havoc
+//@   ensures [nonfinal] !f.Header.Fin ==> result1 != nil && result0.Header == f.Header && sameSlice(result0.Payload, f.Payload)
+//@   ensures [hdr]   sameHdrButRsvLen(result0.Header, f.Header)
+//@   ensures [plain] f.Header.Fin && (f.Header.Rsv&4 == 0 || !specIsFirstData(f.Header.OpCode)) ==> result0.Header.Length == f.Header.Length && sameSlice(result0.Payload, f.Payload) && (result1 != nil) == (f.Header.Rsv&4 != 0)
+//@   ensures [ok]    result1 == nil && f.Header.Rsv&4 != 0 ==> specIsFirstData(f.Header.OpCode) && result0.Header.Rsv == f.Header.Rsv&3 && result0.Header.Length == int64(len(result0.Payload))
